@@ -23,6 +23,7 @@ Check:
 from __future__ import annotations
 
 import os
+import re
 import shutil
 import tempfile
 import xml.etree.ElementTree as ET
@@ -195,6 +196,7 @@ def evaluate(ctx, form, via="dict", fallback="data"):
     res = convert_both(form, via, fallback)
     if res[False]["class"] != res[True]["class"]:
         return {"kind": "outcome-differs", "res": res, "fid": fid, "verdict": {}}
+    ctx._last_res = res[False]
     if not res[False]["ok"]:
         return None
     kind, verdict = None, {}
@@ -271,12 +273,93 @@ def observation(frame):
         return None
 
 
+VALIDATION_MSG = re.compile(
+    r"is not a valid XML name|The namespace prefix '.*' of the .* name '.*' is not declared|Invalid namespace declaration|which is not allowed in XML",
+    re.S,
+)
+
+
+def deep_parts(tree):
+    """the opaque parts with all their content, read off a parsed document"""
+    try:
+        head, body = [k for k in tree["k"] if "t" in k]
+        _title, model = [k for k in head["k"] if "t" in k]
+        mk = [k for k in model["k"] if "t" in k]
+        i = next(j for j, k in enumerate(mk) if k.get("t") == "instance")
+        (root,) = [k for k in mk[i]["k"] if "t" in k]
+    except (ValueError, KeyError, StopIteration):
+        return None
+    itext = None
+    if i > 0 and mk[i - 1].get("t") == "itext":
+        itext = mk[i - 1]["k"]
+    return {"itext": itext, "rootKids": root["k"], "rest": mk[i + 1:], "body": body["k"]}
+
+
+def dom_to_tree(el):
+    """a minidom tree in the driver's encoding"""
+    from xml.dom import Node as N
+
+    from pyxform.utils import PatchedText
+
+    kids = []
+    for c in el.childNodes:
+        if c.nodeType == N.ELEMENT_NODE:
+            kids.append(dom_to_tree(c))
+        elif c.nodeType in (N.TEXT_NODE, N.CDATA_SECTION_NODE):
+            kids.append({"x": c.data, "stock": not isinstance(c, PatchedText)})
+    return {"t": el.tagName, "a": [[k, v] for k, v in el.attributes.items()], "k": kids}
+
+
+def model_accepts(ctx, fields, tree):
+    parts = deep_parts(tree)
+    if parts is None:
+        return None
+    return ctx.driver.call("asm.valid", fields=fields, **parts)["valid"]
+
+
+def rejection_case(ctx, form, msg):
+    """The implementation rejected the form in validate_xml_document.  Does the model (get_nsmap, assembly,
+    validDoc) reject the same document?  The document is obtained by converting once more with the
+    validation pass switched off; the model assembles its own frame around the parts of that document."""
+    import pyxform.survey as S
+
+    if not hasattr(S, "validate_xml_document"):
+        return
+    orig = S.validate_xml_document
+    seen = {}
+    S.validate_xml_document = lambda el, *a, **k: seen.setdefault("dom", el)
+    try:
+        r = impl.run(form, pretty=False, want_survey=True)
+    finally:
+        S.validate_xml_document = orig
+    if not r["ok"] or "dom" not in seen:
+        ctx.count("rejected:no-document-without-validation")
+        return
+    fields = fields_of(r["_pyxform"])
+    if fields is None:
+        ctx.count("model:unsupported")
+        return
+    v = {"tree": dom_to_tree(seen["dom"])}   # the DOM itself, not a re-parse: names may contain markup characters
+    acc = model_accepts(ctx, fields, v["tree"])
+    if acc is None:
+        ctx.count("rejected:frame-not-destructurable")
+    elif acc:
+        ctx.mismatch("implementation rejects (validate_xml_document), model accepts", form, msg[:300], "validDoc (assemble …) = true")
+    else:
+        ctx.count("rejected:model-rejects-too")
+
+
 def correspondence(ctx, form, ev):
     pyx = ev["res"][False].get("_pyxform")
     fields = fields_of(pyx) if pyx is not None else None
     if fields is None:
         ctx.count("model:unsupported")
         return
+    t = ev["verdict"][False].get("tree")
+    if t:
+        acc = model_accepts(ctx, fields, t)
+        if acc is False:
+            ctx.mismatch("implementation accepts, model (validDoc) rejects", form, "accepted", "validDoc (assemble …) = false")
     for pretty in (False, True):
         v = ev["verdict"][pretty]
         if not v.get("ok"):
@@ -337,6 +420,9 @@ def form_case(ctx, form, via="dict", fallback="data", stream="general"):
     case = {"form": form, "via": via}
     if ev is None:
         ctx.count(f"{stream}/{via}:not-converted")
+        last = getattr(ctx, "_last_res", None)
+        if via == "dict" and last and last.get("class") == "pyxform" and VALIDATION_MSG.search(last.get("msg", "")):
+            rejection_case(ctx, form, last["msg"])
         ctx.record(case, False)
         return
     ctx.count(f"{stream}/{via}:converted")
@@ -430,7 +516,12 @@ def explore(ctx, factor, bs):
 
     rng = ctx.rng
     big = not ctx.quick()
-    deadline = None if factor == 1 else time.time() + ctx.pick(60, 300)
+    if factor > 1 and ctx.mismatches and all(m["what"].startswith("implementation rejects") for m in ctx.mismatches):
+        # the model accepts documents the implementation rejects: a rejected conversion has no output the
+        # oracle could fail on, so a search for an oracle failure is pointless; the mismatches carry the forms
+        ctx.notes["search_skipped"] = "only accept/reject divergences: valid forms are rejected, nothing for the oracle to see"
+        return
+    deadline = None if factor == 1 else time.time() + ctx.pick(45, 300)
 
     def more():
         if len(ctx.failures) >= 10:
